@@ -38,6 +38,7 @@ type Op struct {
 	Size    int      `json:"size,omitempty"`
 	Bytes   int      `json:"bytes,omitempty"`
 	Burst   []int    `json:"burst,omitempty"`   // payload sizes of a pipelined burst (>= 8 each)
+	Dup     bool     `json:"dup,omitempty"`     // pub (QoS > 0): the PUBLISH carries DUP=1 (a retransmission whose first copy was lost)
 	EOFData bool     `json:"eofdata,omitempty"` // connect: transport may return last bytes together with EOF
 }
 
@@ -340,6 +341,13 @@ func (e *exec) checkDeliveriesFrom(first int, x *expect, retainedFlagWanted bool
 				e.class("in-process-delivery-with-retain-flag-as-published")
 			} else if d.retain != retainedFlagWanted {
 				e.report(dRetainLive, "-", "%s received %s (forwarded to an existing subscription) with retain flag %v", r.name, x.what, d.retain)
+			}
+			if d.dup && !r.inproc {
+				// every delivery in these plans is the broker's first attempt (receivers
+				// acknowledge at once): the DUP flag of the incoming PUBLISH must not be
+				// propagated [MQTT-3.3.1-3]; with a granted QoS of 0 it would even make
+				// the packet malformed
+				e.report(dRoute, "-", "%s received %s with the DUP flag set at QoS %d although this is the broker's first delivery attempt to it", r.name, x.what, d.qos)
 			}
 			qs = append(qs, d.qos)
 		}
@@ -855,6 +863,10 @@ func (e *exec) doPublish(op Op) {
 	pp := &codec.Packet{Type: codec.PUBLISH, Topic: []byte(op.Topic), QoS: op.PQ, Retain: op.Retain, Payload: pl}
 	if op.PQ > 0 {
 		pp.PacketID = e.nextPID()
+		if op.Dup {
+			pp.Dup = true
+			e.class("publish-with-DUP-set")
+		}
 	}
 	what := fmt.Sprintf("message #%d from client %d", e.msgno, ci)
 	if err := c.Send(pp); err != nil {
